@@ -20,6 +20,12 @@ CHECKS = {
             "For corpus structures x (own annotation | random hostile pair lists) x gap detection, the BPSEQ, per-strand text, all-dot-brackets and extended rows are decoded and compared with an independent model of numbering, canonical filtering, conflicts and class orientation."),
     "C07": ("contract on BpSeq.elements + independent decomposition reference model", "4.C07",
             "Every observed decomposition is compared with maximal stacked runs, hairpin pairs, loop closure and an interior-coverage count per unpaired nucleotide; exhaustive small scope + random."),
+    "C08": ("contract on parser.read_3d_structure vs expected atom multiset from a known abstract table", "4.C08",
+            "Generated and corpus tables are emitted as PDB and mmCIF by an independent emitter; every read (default, each model, absent model) is compared with the expected atom multiset per model; all NMR models of the corpus ensembles."),
+    "C09": ("round-trip twins through parser_v2 + 80-column grammar and record automaton on every write_pdb result", "4.C09",
+            "Four write/read paths per table compared field by field with the abstract table; every written PDB document is parsed by an independent column grammar and a record-sequence automaton."),
+    "C10": ("contract on fit_to_pdb + independent feasibility test + bijection check + write/read back", "4.C10",
+            "Tables within and beyond PDB limits (incl. >62 chains, >9999 residues per chain, >99999 atoms in thorough) are fitted; result judged for limits, field preservation, one-to-one renaming, refusal iff infeasible, and survival of write_pdb/parse_pdb_atoms."),
     "C11": ("contracts on find_pairs/find_stackings + frozen Saenger/Zirbel tables + re-read CSV/JSON", "4.C11",
             "Well-formedness clauses (duplicates, self, membership, orientation, sortedness, Saenger, BPh/BR donor contact and class, one class per pair) judged on every observed annotation including all NMR models."),
     "C12": ("recorded call histories on object pools checked step by step against a fresh-object model", "4.C12",
@@ -28,6 +34,8 @@ CHECKS = {
             "All 13 cells of {HiGHS-stub,CBC,none} x {ok,raise,4 bad statuses} x both entry points are enumerated for every knotted input; inputs are sampled. A missing cell makes the run inconclusive."),
     "C14": ("recorded outputs of fresh interpreters under different hash seeds, offline byte comparison", "4.C14",
             "Every tool/library output for each (tool, options, input) triple is recorded under 3 (quick) / 6 (thorough) hash seeds plus an in-process repetition and compared byte for byte; the witness is the first differing line."),
+    "C15": ("differential twins: 2 reader generations x 2 formats compared as maps with each other and the abstract table", "4.C15",
+            "Residue sets, atom sets, coordinates, pairwise connectivity, connected segments and |chi| from four readings of the same single-conformer table must agree."),
     "C16": ("contract on all_dot_brackets + Grundy-colouring enumerator as reference model", "4.C16",
             "Set equality between the library's list and an independent enumeration of greedy-stable assignments, exhaustive over pairings up to N plus random multi-component knots."),
     "C17": ("contract on find_clashes (all 32 option combinations) + O(n^2) reference + in-process CLI with parsed stdout/CSV", "4.C17",
@@ -48,10 +56,14 @@ LEVEL_NOTE = {
     "C05": "margins by the dense evaluator; T4 only for tables inside PDB limits with non-blank chain ids",
     "C06": "is_nucleotide trusted; canonical rule and class orientation convention documented in DESIGN.md 4.C06",
     "C07": "interior convention documented in DESIGN.md 4.C07; slices compared with the text elements itself used",
+    "C08": "emitter is part of the trusted base; lenient justification of dropped atoms; PDB blank occupancy outside the domain",
+    "C09": "blank chain only on PDB->PDB; tolerance 0.001/0.01 as stated",
+    "C10": "feasibility conditions frozen in vmon/props/c10.py; a blank optional field equals a missing one",
     "C11": "frozen Saenger table checked reverse-symmetric at start-up; Zirbel classes frozen",
     "C12": "fresh-object model rebuilt from the text at creation; all_dot_brackets compared as a set",
     "C13": "HiGHS configuration is an interface-compatible stub delegating to CBC; faults injected at actualSolve/status",
     "C14": "hash seeds sampled, not enumerated; third-party libraries assumed deterministic given the seed",
+    "C15": "single-conformer decided on the abstract table; only |chi| compared (sign is C18's known finding)",
     "C16": "components up to 8 stems (enumeration is factorial inside the library)",
     "C17": "frozen radii; typing by first letter of the stripped name; null occupancy = 1; is_nucleotide trusted",
     "C18": "reference dihedral formula validated by construction; tolerance 1e-9; degenerate geometry (sine product < 1e-3) skipped",
